@@ -92,6 +92,18 @@ def recipes(tier: str):
     out.append((R.engine("F", [R.in_var("a", terms=[R.shape("Triangle", "t", [0.0, 0.5, 1.0])])],
                          [R.out_var("o", -5.0, 5.0, terms=fterms, aggregation=None, defuzzifier=("WeightedAverage", "TakagiSugeno"))],
                          [R.block("rb", rules_f, implication=None)]), True))
+    # an output variable that is disabled, and one whose only activation does not depend on the row (`any`): in a batch
+    # their values stay scalars next to the other outputs' vectors
+    dis = R.clone(hybrid)
+    dis["name"] = "H-output-disabled"
+    dis["outputs"][1]["enabled"] = False
+    out.append((dis, False))
+    const = R.engine(
+        "K", [R.in_var("x"), R.in_var("y")],
+        [R.out_var("o1"), R.out_var("o2", terms=k_terms, aggregation=None, defuzzifier=("WeightedAverage", "Automatic"))],
+        [R.block("rb", [R.rule(("and", P("x", (), "lo"), P("y", (), "hi")), [("o1", (), "lo")]),
+                        R.rule(P("x", ("any",), None), [("o2", (), "hi")], weight="0.500")], "Minimum", "Maximum", "Minimum")])
+    out.append((const, False))
     # lock-range on the input variables: out-of-range rows must be clipped the same way in every mode
     for recipe, full in list(out):
         if full or recipe["outputs"][0]["defuzzifier"][0] in ("WeightedAverage", "WeightedSum") and recipe["inputs"][0]["terms"][0]["cls"] == "Triangle":
@@ -208,7 +220,10 @@ def check_batch(acc: Acc, recipe: dict, lock, rows) -> None:
         acc.cls("rows_compared", vf.shape[0])
         for o in range(len(fb)):
             col = [ff[i][o] for i in range(len(rows))]
-            if list(map(str, fb[o])) != col:
+            got_col = list(map(str, fb[o]))
+            if len(got_col) == 1 and len(col) > 1:
+                got_col = got_col * len(col)  # a row-independent fuzzy value (disabled / constant output) holds for every row
+            if got_col != col:
                 acc.violate("fuzzy-value", sig, {**case, "mode": name}, col, list(map(str, fb[o])),
                             f"{name} mode fuzzy values {fb[o]} != float mode {col}")
                 break
